@@ -12,6 +12,8 @@
 From Coq Require Import List NArith Bool.
 From V.gen Require Consts.
 From V.C12 Require Import Model Proofs Inv2 Async Sched Progress Live.
+From V.C11 Require Model PAlt.
+From V.Link Require C11_C12.
 Import ListNotations.
 Open Scope N_scope.
 
@@ -434,3 +436,25 @@ Proof.
   - intros z; destruct z; reflexivity.
   - intros z; destruct z; vm_compute; discriminate.
 Qed.
+
+(* ---- the side condition of `open_stream`, and C11 (coq/Link/C11_C12.v) ----
+   Model.open_stream starts a new period only when both Connections of the previous one have ended. This
+   was documented as "guaranteed by NotificationProtocol's peer state, C11". The attempt to derive it from
+   C11's model shows that it is NOT a guarantee of the code: in C11's model of the (repaired) protocol the
+   user closes a stream whose Connection task is slow to close its substreams, the remote re-opens and
+   the user accepts — the user sees Opened, Closed, Validate, Opened (correct alternation), the peer
+   state is Open 1, and Connection task 0 of the same peer is still alive, closing. The condition
+   therefore remains an ASSUMPTION that restricts C12's scheduler model (old Connections finished before
+   the stream is set up again); the overlap itself is C11's subject (stream-identifier filter:
+   C11_lazy_notification_in_its_period; the gate holds the newest sink: C11_gate_is_newest_sink). *)
+Theorem C12_setup_condition_not_provided_by_C11 :
+  let r := V.C11.Model.run V.C11.PAlt.cfg_w V.C11.Model.init V.Link.C11_C12.w_reopen_while_closing in
+  let s := V.C11.PAlt.last_state V.C11.PAlt.cfg_w V.Link.C11_C12.w_reopen_while_closing in
+  snd r = true /\
+  V.C11.PAlt.events (fst r) =
+    [V.C11.Model.UOpened 0 V.C11.Model.DOut; V.C11.Model.UClosed 0; V.C11.Model.UValidate 0;
+     V.C11.Model.UOpened 0 V.C11.Model.DIn] /\
+  V.C11.Model.ps s 0 = Some (V.C11.Model.Open 1) /\
+  V.C11.Model.tasks s = [V.C11.Model.mkTask 0 0 (Some false) true; V.C11.Model.mkTask 1 0 None false].
+Proof. exact V.Link.C11_C12.restart_overlaps_old_task. Qed.
+Print Assumptions C12_setup_condition_not_provided_by_C11.
